@@ -113,12 +113,14 @@ raw_b('h_insert_in_slot', ['C01', 'C06', 'C13'], ['RawTable::insert_in_slot', 'R
 raw_b('h_remove', ['C01', 'C06', 'C13', 'C10', 'C03'], ['RawTable::remove', 'RawTableInner::erase', 'RawTableInner::set_ctrl'],
       'remove/erase: returns the element and its slot, DELETED iff a whole window of non-EMPTY buckets contains the slot else EMPTY with growth_left+1, frame, reachability kept')
 raw_b('h_iter', ['C09', 'C02'], ['RawTableInner::iter', 'RawIterRange::new', 'RawIterRange::next_impl', 'RawIter::next', 'RawIter::size_hint'],
-      'RawIter: exactly the full buckets in ascending order, exact size_hint at every step, None after exhaustion')
+      'RawIter: exactly the full buckets in ascending order, exact size_hint at every step, None after exhaustion',
+      thorough_sse2=())   # 16 buckets under SSE2: no answer within 5400 s (measured); the portable build answers in ~1400 s; all sizes: Verus unit iter
 
 raw_b('h_clear', ['C08', 'C01'], ['RawTable::clear', 'RawTableInner::clear_no_drop'],
       'clear: all buckets EMPTY, counters reset, same allocation (an already empty table is left as it was)')
 raw_b('h_iter_fold', ['C09'], ['RawIter::fold', 'RawIterRange::fold_impl', 'RawIter::clone'],
-      'next() for any prefix then fold(): every full bucket exactly once; a clone reports the same remaining length')
+      'next() for any prefix then fold(): every full bucket exactly once; a clone reports the same remaining length',
+      thorough_sse2=())   # as h_iter
 raw_b('h_drain', ['C10', 'C09', 'C02'], ['RawTable::drain', 'RawDrain::next', 'RawDrain::drop', 'RawTable::drain_iter_from'],
       'drain consumed to any cut then dropped or leaked: valid empty table, same allocation, no tombstones, full capacity (leaked: unallocated)',
       thorough_sse2=())   # 16 buckets under SSE2: no answer within 4500 s (measured); the portable build answers in ~1000 s
